@@ -433,7 +433,8 @@ class Summary:
             elif kind and kind[0] == "optcell":
                 if len(gs) == 1 and isinstance(v, tuple) and v and v[0] == "opt" and is_bool(v[1]):
                     p.cells[g] = v[1]
-                    p.trace.append(("remember", self._vkind(v[2])))
+                    if v[1] != FALSE:
+                        p.trace.append(("remember", self._vkind(v[2])))
                 else:
                     p.cells[g] = TOP
             elif kind and kind[0] == "cont":
